@@ -147,3 +147,61 @@ Print Assumptions C15_eof_span_is_last_token.
 Print Assumptions C15_empty_file_span_is_zero.
 Print Assumptions C15_not_outer_error_is_at_the_statement.
 Print Assumptions C15_not_outer_error_line.
+
+(* ---------------------------------------------------------------------------------------------- *)
+(* Resolver errors (name resolution, namespaces, imports): location theorems over the resolver model
+   Resolve/Resolver.v, which is tied on every run to the real resolver's first error (message class,
+   file, line, columns) by the C09 check.  `gen_rflags` are the flags regenerated from
+   name_resolution.rs; the theorems hold for any flags. *)
+From Sylt Require Syntax.Resolved Resolve.PAst Resolve.Resolver Resolve.ErrorSites Resolve.ErrorProofs
+     Resolve.RefineRefuted Gen.GenResolve.
+
+Import Syntax.Resolved Resolve.PAst Resolve.Resolver Resolve.ErrorSites Resolve.ErrorProofs Gen.GenResolve.
+Import ListNotations.
+Local Open Scope list_scope.
+
+(* resolve_errors_located.  Every error the resolver returns is one of the pairs (kind, span) that
+   `err_sites ast` lists for the constructs the user wrote -- identifier span for an unresolved name or a
+   namespace used as a value, the whole access for `a.x`, the component for a bad type path, the STATEMENT
+   for the re-lookup of a defined name, the LATER statement for a duplicate definition, the name of a `use`
+   for a missing namespace, the imported / aliased identifier of a `from .. use` (see Resolve/ErrorSites.v)
+   -- so its file id and line are those of that construct; the only exception is "no start function",
+   reported at Span::zero(0) of the main file. *)
+Theorem C15_resolve_errors_located : forall ast es,
+  resolve gen_rflags ast = Err es ->
+  Forall (fun e => In (e_kind e, e_span e) (err_sites ast) \/ (e_kind e = ENoStart /\ e_span e = span_zero 0)) es.
+Proof. exact (resolve_errors_located gen_rflags). Qed.
+
+Theorem C15_resolve_error_spans : forall ast es,
+  resolve gen_rflags ast = Err es ->
+  Forall (fun e => In (e_span e) (spans_of ast) \/ (e_kind e = ENoStart /\ e_span e = span_zero 0)) es.
+Proof. exact (resolve_error_spans gen_rflags). Qed.
+
+(* first_error_is_first.  A statement list (the body of `block`, and the top level) fails with the error
+   of its first erroneous statement, the statements before it having been resolved in order; conversely
+   the reported error is that of some statement all of whose predecessors resolved.  (The code goes on
+   and appends the errors of later statements; the model keeps the first element, which is what every
+   comparison with the code looks at.) *)
+Theorem C15_first_error_is_first : forall (rs : pstmt -> M (option stmt)) l1 s l2 st o1 st1 es,
+  block_with rs l1 st = Ok (o1, st1) -> rs s st1 = Err es -> block_with rs (l1 ++ s :: l2) st = Err es.
+Proof. exact block_first_error. Qed.
+
+Theorem C15_reported_error_is_first : forall (rs : pstmt -> M (option stmt)) l st es,
+  block_with rs l st = Err es ->
+  exists l1 s l2 o1 st1, l = l1 ++ s :: l2 /\ block_with rs l1 st = Ok (o1, st1) /\ rs s st1 = Err es.
+Proof. exact block_error_is_first. Qed.
+
+(* Non-vacuity: `start :: fn do if true do y := 5 end  y end` with restored scopes is rejected with
+   NothingMatched at the identifier y (line 5), one of the listed sites; a program without start gets the
+   NoStart error at Span::zero(0). *)
+Example C15_resolver_location_example :
+  resolve (mkFlags true true true false) RefineRefuted.w_if
+  = Err [mkRErr ENothingMatched (RefineRefuted.s_ 5)]
+  /\ In (ENothingMatched, RefineRefuted.s_ 5) (err_sites RefineRefuted.w_if)
+  /\ resolve gen_rflags (RefineRefuted.main_ []) = Err [mkRErr ENoStart (span_zero 0)].
+Proof. vm_compute. split; [reflexivity|]. split; [|reflexivity]. auto 20. Qed.
+
+Print Assumptions C15_resolve_errors_located.
+Print Assumptions C15_resolve_error_spans.
+Print Assumptions C15_first_error_is_first.
+Print Assumptions C15_reported_error_is_first.
